@@ -580,33 +580,41 @@ class WorldC08(World):
                     raise Violation('detailed-balance', 'reaction %d: Ea forward - reverse (del_m=%d) = %r, reaction enthalpy %r' % (
                         r, dm, ea[False] - ea[True], dH))
             ctx.probe('arrhenius-Ea-explicit-molecularity')
-        if q in ('HoRT', 'GoRT', 'UoRT', 'FoRT') and m['cls'] == 'Reaction':
-            # the same relations in energy units: change = final - initial, forward - reverse activation = change, and the
-            # dimensional value is the dimensionless one times R T in that unit (one constants table for all of them)
+        if q in ('HoRT', 'GoRT', 'UoRT', 'FoRT', 'EoRT', 'SoR', 'CvoR', 'CpoR') and m['cls'] == 'Reaction':
+            # the same relations in dimensional form: every state, the change and the activation value are the dimensionless
+            # ones times R T (energies) or R (entropy, heat capacities) in the requested unit - one constants table for all
             from pmutt import constants as pc
             T = cond['T']
+            per_K = q in ('SoR', 'CvoR', 'CpoR')
+            name_ = q[:-2] if per_K else q[:-3]
             for unit in ('kcal/mol', 'J/mol', 'cal/mol', 'kJ/mol', 'eV/molecule'):
                 try:
-                    RT = pc.R(unit + '/K') * T
+                    fac = pc.R(unit + '/K') * (1.0 if per_K else T)
                 except KeyError:
                     continue
-                name_ = q[:-3]
-                wantd = (val['products'][0] - val['reactants'][0]) * RT
-                gotd = call(getattr(rxn, 'get_delta_' + name_), 'get_delta_%s(units=%r)' % (name_, unit), units=unit)
-                if abs(gotd - wantd) > 1e-10 * (scale * RT):
-                    raise Violation('hess', 'reaction %d: get_delta_%s(units=%r) = %r; (final - initial) R T = %r' % (
-                        r, name_, unit, gotd, wantd))
-                if 'transition state' in val and hasattr(rxn, 'get_%s_act' % name_):
-                    af = call(getattr(rxn, 'get_%s_act' % name_), 'get_%s_act(units=%r)' % (name_, unit), units=unit, rev=F(False))
-                    ar = call(getattr(rxn, 'get_%s_act' % name_), 'get_%s_act(units=%r, rev)' % (name_, unit), units=unit, rev=F(True))
-                    tsc = val['transition state'][1] * RT
-                    if abs((af - ar) - gotd) > 1e-10 * (scale * RT + 2 * tsc):
+                u_arg = unit + '/K' if per_K else unit
+                for st_ in ('reactants', 'products') + (('transition state',) if 'transition state' in val else ()):
+                    gs = call(getattr(rxn, 'get_%s_state' % name_), 'get_%s_state(%s, units=%r)' % (name_, st_, u_arg),
+                              units=u_arg, state=st_)
+                    if abs(gs - val[st_][0] * fac) > 1e-10 * val[st_][1] * fac:
+                        raise Violation('state-sum', 'reaction %d: get_%s_state(%r, units=%r) = %r; stoichiometric sum x R%s = %r' % (
+                            r, name_, st_, u_arg, gs, '' if per_K else ' T', val[st_][0] * fac))
+                wantd = (val['products'][0] - val['reactants'][0]) * fac
+                gotd = call(getattr(rxn, 'get_delta_' + name_), 'get_delta_%s(units=%r)' % (name_, u_arg), units=u_arg)
+                if abs(gotd - wantd) > 1e-10 * (scale * fac):
+                    raise Violation('hess', 'reaction %d: get_delta_%s(units=%r) = %r; (final - initial) x R%s = %r' % (
+                        r, name_, u_arg, gotd, '' if per_K else ' T', wantd))
+                if 'transition state' in val and q != 'EoRT' and hasattr(rxn, 'get_%s_act' % name_):
+                    af = call(getattr(rxn, 'get_%s_act' % name_), 'get_%s_act(units=%r)' % (name_, u_arg), units=u_arg, rev=F(False))
+                    ar = call(getattr(rxn, 'get_%s_act' % name_), 'get_%s_act(units=%r, rev)' % (name_, u_arg), units=u_arg, rev=F(True))
+                    tsc = val['transition state'][1] * fac
+                    if abs((af - ar) - gotd) > 1e-10 * (scale * fac + 2 * tsc):
                         raise Violation('detailed-balance', 'reaction %d: %s_act forward - reverse = %r %s, reaction change %r' % (
-                            r, name_, af - ar, unit, gotd))
-                    wa = (val['transition state'][0] - val['reactants'][0]) * RT
-                    if abs(af - wa) > 1e-10 * (scale * RT + tsc):
-                        raise Violation('activation', 'reaction %d: get_%s_act(units=%r) = %r; (transition state - reactants) R T = %r' % (
-                            r, name_, unit, af, wa))
+                            r, name_, af - ar, u_arg, gotd))
+                    wa = (val['transition state'][0] - val['reactants'][0]) * fac
+                    if abs(af - wa) > 1e-10 * (scale * fac + tsc):
+                        raise Violation('activation', 'reaction %d: get_%s_act(units=%r) = %r; (transition state - reactants) x R%s = %r' % (
+                            r, name_, u_arg, af, '' if per_K else ' T', wa))
             ctx.probe('dimensional-getters')
         if q == 'EoRT' and m['cls'] == 'Reaction' and all(self.spk[i] == 'StatMech' for i, _ in m['reactants'] + m['products']):
             # electronic energy with the zero-point energy included: the option reaches every species, in every form
